@@ -261,7 +261,12 @@ def var_array(v, dlen):
             shape)
     else:
         arr = np.array(v['data'], dtype=DT[code]).reshape(shape)
-    if v.get('mask') is not None or v.get('fill') is not None:
+    if v.get('genmask'):
+        # large deterministic mask: every genmask-th cell
+        size = int(np.prod(shape)) if shape else 1
+        mask = (np.arange(size) % int(v['genmask']) == 0).reshape(shape)
+        arr = np.ma.MaskedArray(arr, mask=mask)
+    elif v.get('mask') is not None or v.get('fill') is not None:
         mask = np.zeros(shape, dtype=bool) if v.get('mask') is None else \
             np.array(v['mask'], dtype=bool).reshape(shape)
         arr = np.ma.MaskedArray(arr, mask=mask)
